@@ -1,8 +1,8 @@
 (* C04 — ITS releases inbound tokens only for approved trusted messages, at most once.
    Statements only; proofs in Proofs/ItsFacts.v. *)
-From Coq Require Import String List NArith Lia Bool.
+From Coq Require Import String List Arith NArith Lia Bool.
 From Ax Require Import Lib.Bytes Lib.Mvx Lib.SolAbi Lib.Keccak Model.Check Model.Env Model.Gateway Model.TokenManager Model.Its
-     Proofs.GatewayMsgs Proofs.TMFacts Proofs.ItsFacts Proofs.ItsWorld Proofs.ItsMore Gen.Generated.
+     Proofs.GatewayMsgs Proofs.TMFacts Proofs.ItsFacts Proofs.ItsWorld Proofs.ItsMore Proofs.ItsGw Gen.Generated.
 Import ListNotations.
 Open Scope N_scope.
 
@@ -40,8 +40,27 @@ Section C04.
   Theorem c04_once : forall w c orig chain id src ph payload,
     mst (iw_gw w) (chain, id) = Some MExecuted -> process_transfer H w c orig chain id src ph payload = None.
   Proof. exact (process_transfer_after_executed H). Qed.
+
+  (* ---- world level, every history ----
+     every operation of the ITS world (all 25 kinds, all callers, asynchronous steps in any order) moves each gateway
+     message only forward; an executed message is executed in every later world; so a released transfer is released
+     at most once EVER: after a successful release of (chain, id), in every world reachable by any operations, any
+     further attempt for that message -- same or tampered payload, any source address, any caller -- fails *)
+  Variable verify : bytes -> bytes -> bytes -> bool.
+  Theorem c04_gateway_forward : forall w o k, (rank (mst (iw_gw w) k) <= rank (mst (iw_gw (fst (istep H verify w o))) k))%nat.
+  Proof. intros w o k. apply (istep_gm H verify). Qed.
+  Theorem c04_executed_forever : forall ops w k, mst (iw_gw w) k = Some MExecuted -> mst (iw_gw (irun H verify w ops)) k = Some MExecuted.
+  Proof. exact (irun_executed_final H verify). Qed.
+  Theorem c04_released_once_forever : forall w c orig chain id src ph payload w' ev,
+    process_transfer H w c orig chain id src ph payload = Some (w', ev) ->
+    (exists ty tid osrc dest amount, dec_impl [PUint; PBytes32; PBytes; PBytes; PUint; PBytes] payload = Some [TUint ty; TBytes32 tid; TBytes osrc; TBytes dest; TUint amount; TBytes []]) ->
+    forall ops c2 orig2 src2 ph2 payload2, process_transfer H (irun H verify w' ops) c2 orig2 chain id src2 ph2 payload2 = None.
+  Proof. exact (released_once_forever H verify). Qed.
 End C04.
 Print Assumptions c04_release_requires.
 Print Assumptions c04_once.
+Print Assumptions c04_executed_forever.
+Print Assumptions c04_released_once_forever.
 Check c04_release_requires.
 Check c04_once.
+Check c04_released_once_forever.
